@@ -11,7 +11,9 @@ import (
 // walks over Catalogue; they are part of CatalogueAll only.
 //
 //	index.autoindex.replace, column.charset.modify.notable, column.collation.modify.notable,
-//	column.default.case   see autoIndexEdits, charsetNoTableEdits, defaultCaseEdits
+//	column.default.case, column.default.cast, check.add.colname, table.autoincrement.add / .drop
+//	                      see autoIndexEdits, charsetNoTableEdits, defaultCaseEdits, defaultCastEdits,
+//	                      checkColumnNameEdits
 //	pk.parts.shrink.null  the last column of a composite primary key leaves the key and becomes nullable
 //	                      in one step: ModifyPrimaryKey[Parts] plus ModifyColumn[Null] — except on a SQLite
 //	                      WITHOUT ROWID table, where the current NOT NULL of a key column is forced by the
@@ -41,8 +43,104 @@ func ExtraCatalogue(m *Model) []Edit {
 		c.autoIndexEdits(t)
 		c.charsetNoTableEdits(t)
 		c.defaultCaseEdits(t)
+		c.defaultCastEdits(t)
+		c.checkColumnNameEdits(t)
+		c.sqliteAutoIncEdits(t)
 	}
 	return c.out
+}
+
+// sqliteAutoIncEdits: table.autoincrement.add / .drop — the single-column INTEGER PRIMARY KEY of a SQLite
+// rowid table gains or loses AUTOINCREMENT: AddAttr / DropAttr(AutoIncrement) on the table.
+func (c *catalogue) sqliteAutoIncEdits(t *Table) {
+	if c.d != SQLite || t.PK == nil || len(t.PK.Cols) != 1 || t.WithoutRowID {
+		return
+	}
+	n, cn := t.Name, t.PK.Cols[0]
+	col := t.Column(cn)
+	if col.Type.T != "integer" || col.Generated != nil {
+		return
+	}
+	if col.AutoInc {
+		c.add("table.autoincrement.drop", n, cn, "", []Desc{{Kind: "DropAttr", Table: n, Object: "AutoIncrement"}}, func(m *Model) { m.Table(n).Column(cn).AutoInc = false })
+	} else {
+		c.add("table.autoincrement.add", n, cn, "", []Desc{{Kind: "AddAttr", Table: n, Object: "AutoIncrement"}}, func(m *Model) { m.Table(n).Column(cn).AutoInc = true })
+	}
+}
+
+// castDefaultGroups lists PostgreSQL default expressions that contain type casts. The members of one
+// group are pairwise unambiguously different expressions for one column: they differ AFTER the last cast
+// ("tail"), BEFORE it ("head"), between two casts ("mid"), in the type of a cast that is not at the very
+// end of the value ("type"), or (last group) before a cast that IS at the very end. PostgreSQL documents
+// only one equivalence here, which no two members of a group fall under: a cast at the very end of a
+// default ('x'::text) may be dropped or replaced (see pgTrimTrailingCast / Ambiguous).
+var castDefaultGroups = [][]struct{ tag, v string }{
+	{{"base", "round(1.5::numeric, 1)"}, {"tail", "round(1.5::numeric, 2)"}, {"head", "round(2.5::numeric, 1)"}, {"type", "round(1.5::double precision, 1)"}},
+	{{"base", "lpad('7'::text, 3)"}, {"tail", "lpad('7'::text, 5)"}, {"head", "lpad('8'::text, 3)"}},
+	{{"base", "timezone('utc'::text, now())"}, {"tail", "timezone('utc'::text, statement_timestamp())"}, {"head", "timezone('gmt'::text, now())"}},
+	{{"base", "concat('a'::text, 'b'::character varying, 1)"}, {"tail", "concat('a'::text, 'b'::character varying, 2)"}, {"mid", "concat('a'::text, 'c'::character varying, 1)"},
+		{"head", "concat('z'::text, 'b'::character varying, 1)"}, {"type", "concat('a'::character varying, 'b'::character varying, 1)"}},
+	{{"base", "'q'::character varying"}, {"head", "'r'::character varying"}},
+}
+
+// defaultCastEdits (PostgreSQL): column.default.cast — a raw default that is a member of a cast group
+// becomes another member of its group: ChangeDefault.
+func (c *catalogue) defaultCastEdits(t *Table) {
+	if c.d != Postgres {
+		return
+	}
+	n := t.Name
+	for _, col := range t.Columns {
+		if col.Default == nil || !col.Default.Raw {
+			continue
+		}
+		for _, g := range castDefaultGroups {
+			in := false
+			for _, x := range g {
+				in = in || x.v == col.Default.V
+			}
+			if !in {
+				continue
+			}
+			cname := col.Name
+			for _, x := range g {
+				if x.v != col.Default.V {
+					v := x.v
+					c.add("column.default.cast", n, cname, x.tag+":"+v, modCol(n, cname, schema.ChangeDefault), func(m *Model) { m.Table(n).Column(cname).Default.V = v })
+				}
+			}
+		}
+	}
+}
+
+// checkColumnNameEdits: check.add.colname — a named check whose NAME is the name of a column of the same
+// table is added (constraint names and column names are different name spaces in every dialect). Dropping
+// and modifying such a check are the ordinary check.drop / check.expr edits on a model that has one
+// (ExtraPool "checks-colnames").
+func (c *catalogue) checkColumnNameEdits(t *Table) {
+	n := t.Name
+	usedExpr := map[string]bool{}
+	for _, k := range t.Checks {
+		usedExpr[k.Expr] = true
+	}
+	for _, col := range t.Columns {
+		if col.Type.Class != CInt || col.Generated != nil || c.constraintUsed(t, col.Name) {
+			continue
+		}
+		cname := col.Name
+		_, _, cons := scopeNames(t)
+		if sameIdent(c.d, ScopeConstraint, cname, cons) {
+			continue
+		}
+		e := cname + " <> 31"
+		if usedExpr[e] {
+			continue
+		}
+		c.add("check.add.colname", n, cname, "", []Desc{{Kind: "AddCheck", Table: n, Object: cname}}, func(m *Model) {
+			m.Table(n).Checks = append(m.Table(n).Checks, &Check{Name: cname, Expr: e, Cols: []string{cname}})
+		})
+		break // one per table
+	}
 }
 
 // autoIndexEdits (SQLite): index.autoindex.replace — the index of an inline UNIQUE constraint (generated
@@ -166,6 +264,29 @@ func ExtraPool(d Dialect) []*Model {
 				Col("c4", ty.Str(20), Def("'n/a'")), Col("c5", ty.Str(64), Nullable(), RawDef("(upper('Mixed Case'))")), Col("c6", ty.Int(), Def("7"))},
 			PK: &PrimaryKey{Cols: []string{"c1"}},
 		})}
+	// checks that are named like a column of their table (and a column without such a check).
+	colChecks := &Table{Name: "t1",
+		Columns: []*Column{Col("c1", ty.BigInt()), Col("c2", ty.Int()), Col("c3", ty.Int(), Nullable()), Col("c4", ty.Int(), Nullable()), Col("c5", ty.JSON(), Nullable())},
+		PK:      &PrimaryKey{Cols: []string{"c1"}},
+		Checks:  []*Check{Chk("c2", "c2 > 0", "c2"), Chk("c3", "c3 <> 5", "c3"), Chk("k1", "c4 >= -10", "c4")},
+	}
+	if d == MySQL {
+		colChecks.Checks[1].NotEnforced = true
+	}
+	out = append(out, newModel(d, "checks-colnames", colChecks,
+		&Table{Name: "t2", Columns: []*Column{Col("c1", ty.BigInt()), Col("c2", ty.Int(), Nullable())}, PK: &PrimaryKey{Cols: []string{"c1"}},
+			Checks: []*Check{Chk("c2", "c2 <> 5", "c2")}}))
+	if d == Postgres {
+		// default expressions with type casts that are not (only) at the end of the value.
+		out = append(out, newModel(d, "defaults-cast",
+			&Table{Name: "t1",
+				Columns: []*Column{Col("c1", ty.BigInt()), Col("c2", ty.Dec(10, 2), RawDef("round(1.5::numeric, 1)")), Col("c3", ty.Text(), Nullable(), RawDef("lpad('7'::text, 3)")),
+					Col("c4", Type{Class: CTime, T: "timestamp without time zone"}, RawDef("timezone('utc'::text, now())")),
+					Col("c5", ty.Text(), RawDef("concat('a'::text, 'b'::character varying, 1)")), Col("c6", ty.Str(20), Nullable(), RawDef("'q'::character varying")),
+					Col("c7", ty.Dec(12, 4), Nullable(), RawDef("round(1.5::numeric, 2)"))},
+				PK: &PrimaryKey{Cols: []string{"c1"}},
+			}))
+	}
 	switch d {
 	case SQLite:
 		// an inspected table with inline UNIQUE constraints: generated index names.
@@ -243,6 +364,43 @@ func ambiguousAutoIndexes(d Dialect, a, b *Table) string {
 		}
 		if j := b.Index(autoIndexDerivedName(a, i)); j != nil && j.Unique == i.Unique && refIndex(d, i, j)&schema.ChangeParts == 0 {
 			return "generated sqlite index replaced by the index with its derived name and definition"
+		}
+	}
+	return ""
+}
+
+// pgTrimTrailingCast drops a type cast at the very end of a PostgreSQL default ('x'::character varying ->
+// 'x'): the server adds such casts to stored defaults, so a default with and without it, or with another
+// trailing cast, is documented to be the same default. Only a cast followed by nothing but a type name
+// made of letters and blanks counts; a cast inside a call (round(1.5::numeric, 1)) does not.
+func pgTrimTrailingCast(s string) string {
+	i := strings.LastIndex(s, "::")
+	if i < 0 {
+		return s
+	}
+	for _, r := range s[i+2:] {
+		if r != ' ' && !(r >= 'a' && r <= 'z' || r >= 'A' && r <= 'Z') {
+			return s
+		}
+	}
+	return s[:i]
+}
+
+// ambiguousDefaults: PostgreSQL defaults that differ only by a trailing cast; MySQL (MariaDB) checks
+// json_valid(<column>) named like a column that stays, which the server generates and drops by itself.
+func ambiguousDefaults(d Dialect, a, b *Table) string {
+	for _, c := range a.Columns {
+		e := b.Column(c.Name)
+		if d == Postgres && e != nil && c.Default != nil && e.Default != nil && c.Default.V != e.Default.V &&
+			pgTrimTrailingCast(c.Default.V) == pgTrimTrailingCast(e.Default.V) {
+			return "postgres defaults differing only by a trailing cast"
+		}
+	}
+	if d == MySQL {
+		for _, k := range a.Checks {
+			if k.Name != "" && strings.HasPrefix(k.Expr, "json_valid") && b.Column(k.Name) != nil && b.Check(k.Name) == nil {
+				return "generated json_valid check named like its column dropped (MariaDB drops it with MODIFY COLUMN)"
+			}
 		}
 	}
 	return ""
